@@ -29,6 +29,9 @@ m["engines"] = [dict(name="pyvc", path="/verif/pyvc", serves_properties=sorted(p
                      kind_free_text="function-modular VC generator / symbolic executor over the real ASTs of /repo with sidecar contracts; "
                                     "obligations discharged by z3 5.1 (cvc5 1.0.3 and z3 4.8.12 as second opinions); bounded native contract legs "
                                     "on CPython 3.12/3.11/3.10/3.9 where the compiler/interpreter is not formalised")]
-m["notes"] = "see DESIGN.md; exit codes: 0 held, 1 violation, 2 undecided, 3 checker crash"
+m["notes"] = ("see DESIGN.md (section 0 = as built); exit codes: 0 held, 1 violation, 2 undecided (unknown, unsupported construct, lost contract "
+              "anchor, proof failed after a loop under invariant changed shape), 3 checker crash (incl. a disagreement of the engine "
+              "differential tools/engine_diff.py, which every check with deductive units runs); known findings: known_findings.json; "
+              "independent test material: seeded/ (120 seeded defects, seeded/DETECTION.md) and refactorings/ (36 behaviour-preserving edits)")
 json.dump(m, open(os.path.join(HERE, "MANIFEST.json"), "w"), indent=1)
 print("claimed:", [c["property_id"] for c in checks])
